@@ -435,6 +435,20 @@ pub fn c11_case(case: &SearchCase, kmax: u64, st: &mut Stats) -> CaseResult {
             }
         }
     }
+    // (i') and (ii'): a search that ends of its own accord before the clock expires was allowed every
+    // iteration it wanted - whatever it played last is judged like an answer after iteration 1 / 2
+    let ended_by_itself = reference.queries < kmax;
+    if ended_by_itself {
+        st.label("search_ended_before_the_clock_expired");
+        if let Some(last) = reference.sends.last().and_then(|b| desc(b).ok()) {
+            if m1 && !is_mate_move(p, &last) {
+                return Err(format!("a mate in one exists ({:?}); the search ended of its own accord after {} of {} allowed clock consultations and plays {} which does not mate, at {}", mating.iter().map(mv_name).collect::<Vec<_>>(), reference.queries, kmax, mv_name(&last), at()));
+            }
+            if !m1 && can_avoid && allows_mate_in_one(p, &last) {
+                return Err(format!("the opponent's mate in one can be avoided; the search ended of its own accord after {} of {} allowed clock consultations and plays {} which allows mate on the next move, at {}", reference.queries, kmax, mv_name(&last), at()));
+            }
+        }
+    }
     // (ii) once iteration 2 has finished the engine does not walk into a mate in one it can avoid
     if can_avoid {
         if let Some(ix) = first_d3 {
@@ -743,6 +757,88 @@ fn minor_piece_decode(i: u64) -> Option<Pos> {
 }
 const MINOR_SPACE: u64 = 2 * 25 * 2 * 64 * 25 * 12 * 2;
 
+/// Directed search for a rare geometry: the side to move has a mate in one AND another checking
+/// move after which EVERY legal reply gives check back (cross-check) and is answered by mate. Every
+/// ply of such a line gives check, so the check extensions prove that longer mate already in the
+/// first iteration - a search that stops at "the first forced mate found" plays it instead of the
+/// mate in one. Candidates are drawn from a deterministic stream (seed) and filtered by the oracle.
+pub fn cross_check_candidate(x: &mut u64) -> Option<Pos> {
+    let mut next = |n: u64| -> u64 {
+        *x = x.wrapping_mul(6364136223846793005).wrapping_add(1442695040888963407);
+        ((*x >> 33) * n) >> 31
+    };
+    let mut p = Pos::empty();
+    let white_attacks = next(2) == 0;
+    let (a, d) = if white_attacks { (Color::White, Color::Black) } else { (Color::Black, Color::White) };
+    // defending king on the rim, some pawns in front of it
+    let rim: Vec<u8> = (0..64u8).filter(|s| s % 8 == 0 || s % 8 == 7 || s / 8 == 0 || s / 8 == 7).collect();
+    let dk = rim[next(rim.len() as u64) as usize];
+    p.sq[dk as usize] = Some((d, Kind::King));
+    let put = |p: &mut Pos, s: u8, c: Color, k: Kind| {
+        if p.sq[s as usize].is_none() && !(k == Kind::Pawn && (s / 8 == 0 || s / 8 == 7)) {
+            p.sq[s as usize] = Some((c, k));
+        }
+    };
+    for _ in 0..next(4) {
+        let f = (dk % 8) as i64 + next(3) as i64 - 1;
+        let r = (dk / 8) as i64 + next(3) as i64 - 1;
+        if (0..8).contains(&f) && (0..8).contains(&r) {
+            put(&mut p, (r * 8 + f) as u8, d, Kind::Pawn);
+        }
+    }
+    let ak = next(64) as u8;
+    if p.sq[ak as usize].is_some() {
+        return None;
+    }
+    p.sq[ak as usize] = Some((a, Kind::King));
+    let dkinds = [Kind::Rook, Kind::Rook, Kind::Rook, Kind::Queen, Kind::Bishop, Kind::Knight];
+    for _ in 0..1 + next(3) {
+        let k = dkinds[next(6) as usize];
+        // defenders tend to stand near their king or on the attacker's king lines
+        let s = if next(2) == 0 { next(64) as u8 } else { ((((dk / 8) as i64 + next(3) as i64 - 1).clamp(0, 7)) * 8 + ((dk % 8) as i64 + next(5) as i64 - 2).clamp(0, 7)) as u8 };
+        put(&mut p, s, d, k);
+    }
+    let akinds = [Kind::Queen, Kind::Rook, Kind::Rook, Kind::Knight, Kind::Knight, Kind::Bishop];
+    for _ in 0..3 + next(3) {
+        put(&mut p, next(64) as u8, a, akinds[next(6) as usize]);
+    }
+    p.stm = a;
+    if !p.is_legal_position() || p.in_check(a) {
+        return None;
+    }
+    Some(p)
+}
+pub fn has_cross_check_line(p: &Pos) -> bool {
+    let us = p.stm;
+    let legal = p.legal_moves();
+    if !legal.iter().any(|m| is_mate_move(p, m)) {
+        return false;
+    }
+    legal.iter().any(|m| {
+        let q = p.apply(m);
+        if !q.in_check(q.stm) {
+            return false;
+        }
+        let replies = q.legal_moves();
+        !replies.is_empty()
+            && replies.iter().all(|r| {
+                let z = q.apply(r);
+                z.in_check(us) && z.legal_moves().iter().any(|f| z.apply(f).is_checkmate())
+            })
+    })
+}
+pub fn find_cross_check(seed: u64, tries: u32) -> Option<Pos> {
+    let mut x = seed | 1;
+    for _ in 0..tries {
+        if let Some(p) = cross_check_candidate(&mut x) {
+            if has_cross_check_line(&p) {
+                return Some(p);
+            }
+        }
+    }
+    None
+}
+
 pub fn run_c11(ctx: &mut Ctx) {
     let t = ctx.tier;
     {
@@ -793,6 +889,30 @@ pub fn run_c11(ctx: &mut Ctx) {
         move |r| {
             let mut v = match mate_case_moves(r).map(root_only) {
                 Some((s, m)) => case_json(&s, &m),
+                None => json!({"fen": null}),
+            };
+            v["kmax"] = json!(kmax);
+            v
+        },
+    );
+    run_prop(
+        ctx,
+        "mate_in_one_beside_a_cross_check_mate",
+        || any::<u64>(),
+        t.pick(700, 24_000),
+        move |seed, st| {
+            let Some(p) = find_cross_check(*seed, 40_000) else {
+                st.label("no_cross_check_position_found_in_40000_candidates");
+                return Ok(());
+            };
+            let Ok(case) = make_case(&p, &[]) else { return Ok(()) };
+            st.sample(|| case_json(&p, &[]));
+            st.label("cross_check_line_beside_mate_in_one");
+            c11_case(&case, kmax, st)
+        },
+        move |seed| {
+            let mut v = match find_cross_check(*seed, 40_000) {
+                Some(p) => case_json(&p, &[]),
                 None => json!({"fen": null}),
             };
             v["kmax"] = json!(kmax);
